@@ -43,7 +43,7 @@ type gateBucket struct {
 	log      []string
 }
 
-func newGate() *gateBucket { return &gateBucket{objs: map[string]gateVer{}} }
+func newGate() *gateBucket         { return &gateBucket{objs: map[string]gateVer{}} }
 func (g *gateBucket) Close() error { return nil }
 func (g *gateBucket) NewRangeReader(ctx context.Context, key string, off, l int64) (io.ReadCloser, error) {
 	r, _, _, err := g.NewRangeReaderEtag(ctx, key, off, l, "")
@@ -161,7 +161,7 @@ func (g *gateBucket) releaseAll() {
 
 // quiet waits until no goroutine that runs server or harness code is runnable.
 func waitQuiet(act *int64) bool {
-	buf := make([]byte, 1<<18)
+	buf := make([]byte, 1<<22)
 	deadline := time.Now().Add(3 * time.Second)
 	okCount := 0
 	last := int64(-1)
@@ -267,6 +267,7 @@ func (v *srvVersion) answerOf(z, x, y uint64, ext int) (int, []byte) {
 }
 
 type srvReq struct {
+	kind       string // "" = tile request, "meta" = /name/metadata, "json" = /name.json
 	rid        int
 	name       int
 	z, x, y    uint64
@@ -404,6 +405,43 @@ func (sr *srvRun) start(name int, z, x, y uint64, ext int) {
 	sr.obs = append(sr.obs, sr.observe())
 	sr.step++
 }
+
+// startPath starts a metadata or TileJSON request (oracle only: the executable model has tile requests)
+func (sr *srvRun) startPath(name int, kind string) {
+	r := &srvReq{rid: len(sr.reqs), name: name, kind: kind, startStep: sr.step}
+	sr.reqs = append(sr.reqs, r)
+	path := fmt.Sprintf("/a%d/metadata", name)
+	if kind == "json" {
+		path = fmt.Sprintf("/a%d.json", name)
+	}
+	atomic.AddInt64(&sr.gate.activity, 1)
+	go func() {
+		st, _, body := sr.srv.Get(context.Background(), path)
+		sr.mu.Lock()
+		r.status, r.body, r.done = st, body, true
+		sr.doneCh = append(sr.doneCh, r)
+		sr.mu.Unlock()
+		atomic.AddInt64(&sr.gate.activity, 1)
+	}()
+	sr.steps = append(sr.steps, fmt.Sprintf("P %d %d %s", r.rid, name, kind))
+	sr.obs = append(sr.obs, sr.observe())
+	sr.step++
+}
+
+// what a server that only ever saw this version answers on the metadata / TileJSON endpoint
+func (v *srvVersion) pathAnswer(kind string) (int, []byte) {
+	mb := newMemBucket()
+	mb.put(fmt.Sprintf("a%d.pmtiles", v.name), v.arch.Bytes, "only")
+	srv, _ := pmtiles.NewServerWithBucket(mb, "", quietLogger, 64, "http://pub")
+	srv.Start()
+	path := fmt.Sprintf("/a%d/metadata", v.name)
+	if kind == "json" {
+		path = fmt.Sprintf("/a%d.json", v.name)
+	}
+	st, _, body := srv.Get(context.Background(), path)
+	return st, body
+}
+
 func tagNum(etag string) int {
 	n := 0
 	fmt.Sscanf(etag, "v%d", &n)
@@ -481,6 +519,27 @@ func (sr *srvRun) checkResponses(allowFaults bool) {
 			sr.viol = append(sr.viol, fmt.Sprintf("request %d never completed", r.rid))
 			continue
 		}
+		if r.kind != "" {
+			during := sr.versionsDuring(r.name, r.startStep, r.endStep)
+			ok := false
+			for _, vid := range during {
+				if vid < 0 {
+					ok = ok || r.status == 404
+					continue
+				}
+				st, body := sr.versions[vid].pathAnswer(r.kind)
+				if st == r.status && bytes.Equal(body, r.body) {
+					ok = true
+				}
+			}
+			switch {
+			case ok:
+			case r.status >= 500 && (allowFaults || sr.replacedDuring(r.name, r.startStep, r.endStep)):
+			default:
+				sr.viol = append(sr.viol, fmt.Sprintf("%s request %d for a%d answered %d %s, which no single version current during the request gives", r.kind, r.rid, r.name, r.status, trunc(string(r.body))))
+			}
+			continue
+		}
 		matches := func(vids []int) bool {
 			for _, vid := range vids {
 				if vid < 0 {
@@ -506,7 +565,13 @@ func (sr *srvRun) checkResponses(allowFaults bool) {
 				sr.viol = append(sr.viol, fmt.Sprintf("request %d (a%d %d/%d/%d) answered %d, which no version current up to the end of the request gives", r.rid, r.name, r.z, r.x, r.y, r.status))
 			}
 		case r.status >= 500:
-			if !allowFaults && !sr.replacedDuring(r.name, r.startStep, r.endStep) {
+			deleted := false // a deleted archive cannot be served; C08 speaks about replacements, and a failure is not a misstatement
+			for _, e := range sr.history[r.name] {
+				if e.vid < 0 && e.step <= r.endStep {
+					deleted = true
+				}
+			}
+			if !allowFaults && !deleted && !sr.replacedDuring(r.name, r.startStep, r.endStep) {
 				sr.viol = append(sr.viol, fmt.Sprintf("request %d failed with %d although its archive was not replaced during the request", r.rid, r.status))
 			}
 		default:
